@@ -4,7 +4,6 @@ import (
 	"fmt"
 	"io"
 	"os"
-	"path/filepath"
 	"sort"
 	"strings"
 	"time"
@@ -25,7 +24,8 @@ type c19Case struct {
 }
 
 // c19TryClient runs NewClientPipe against a peer that answers INIT with raw reply bytes (then EOF when cut is set).
-func c19TryClient(reply []byte, eofAfter bool) (ok bool, exts map[string]string, errText string, hung bool) {
+// exts holds HasExtension's answer for every probed name it reports as present.
+func c19TryClient(reply []byte, eofAfter bool, probes []string) (ok bool, exts map[string]string, errText string, hung bool) {
 	c2sR, c2sW := io.Pipe()
 	s2cR, s2cW := io.Pipe()
 	go func() {
@@ -40,11 +40,29 @@ func c19TryClient(reply []byte, eofAfter bool) (ok bool, exts map[string]string,
 		io.Copy(io.Discard, c2sR)
 	}()
 	type res struct {
-		c   *sftp.Client
-		err error
+		c    *sftp.Client
+		err  error
+		exts map[string]string
 	}
 	ch := make(chan res, 1)
-	go func() { c, err := sftp.NewClientPipe(s2cR, c2sW); ch <- res{c, err} }()
+	go func() {
+		// construction AND the HasExtension questions run under the hang deadline
+		c, err := sftp.NewClientPipe(s2cR, c2sW)
+		var exts map[string]string
+		if err == nil {
+			exts = map[string]string{}
+			for _, n := range probes {
+				d, ok := c.HasExtension(n)
+				if ok {
+					exts[n] = d
+				} else if d != "" {
+					exts[n] = "absent but with data: " + d
+				}
+			}
+		}
+		ch <- res{c, err, exts}
+	}()
+	w := lib.HangWait(hangDeadline)
 	select {
 	case r := <-ch:
 		if r.err != nil {
@@ -52,18 +70,14 @@ func c19TryClient(reply []byte, eofAfter bool) (ok bool, exts map[string]string,
 			c2sR.Close()
 			return false, nil, r.err.Error(), false
 		}
-		exts = map[string]string{}
-		for _, n := range []string{"hardlink@openssh.com", "posix-rename@openssh.com", "statvfs@openssh.com", "fsync@openssh.com", "a@b", "x", ""} {
-			if d, ok := r.c.HasExtension(n); ok {
-				exts[n] = d
-			}
-		}
 		s2cW.Close()
-		r.c.Close()
+		done := make(chan struct{})
+		go func() { r.c.Close(); close(done) }()
+		lib.WaitCleanup("c19/client-handshake", 5*time.Second, done)
 		c2sR.Close()
-		return true, exts, "", false
-	case <-time.After(lib.HangWait(20 * time.Second)):
-		lib.SpendHang("c19/client-handshake", lib.HangWait(20*time.Second))
+		return true, r.exts, "", false
+	case <-time.After(w):
+		lib.SpendHang("c19/client-handshake", w)
 		s2cW.Close()
 		c2sR.Close()
 		return false, nil, "", true
@@ -72,16 +86,19 @@ func c19TryClient(reply []byte, eofAfter bool) (ok bool, exts map[string]string,
 
 func checkC19(c *lib.Ctx) {
 	r := c.R
-	r.Rule = "client: handshake replies with versions {0..5, 2^31, 2^32-1} x extension lists, every truncation of a valid VERSION reply, every other type byte, PRNG bodies: construction succeeds iff type=2, version=3 and the extension list parses, and reports exactly the advertised extensions; server: every ordered subset of the supported extensions (plus lists with repetitions; invalid names from four prior lists) through SetSFTPExtensions x BOTH servers under EVERY subset of their options (os: ReadOnly, WithAllocator, WithServerWorkingDirectory, WithMaxTxPacket, WithDebug = 32 variants; request server: WithRSAllocator, WithStartDirectory, WithRSMaxTxPacket = 8 option sets x 4 FileCmd handlers implementing a subset of {PosixRenameFileCmder, StatVFSFileCmder} and recording the method reached (quick: one handler per option set, rotating with the configuration)) x INIT variants (versions, client extension pairs): VERSION carries exactly the configured list; per session extended requests with every supported name (configured or not; absolute and relative paths; results checked on the tree; on a read-only server the mutating ones must be PERMISSION_DENIED and change nothing), ~110 unserved names (empty, other OpenSSH names, supported names in other case / without or with another domain / with NUL, blank, newline, one byte more or less, non-UTF-8, 255..65536 bytes (200000 thorough)) and PRNG names (random bytes, one-byte mutations of supported names) with rotating argument shapes (none, path, two paths, handle, random bytes, cut string): each must be answered STATUS OP_UNSUPPORTED with the request id, create nothing, and a following STAT must be answered; a pipelined batch per session (replies in order); requests that do not decode (id/name/argument cut or over-long, one session each) must end the session or be refused, never served; EVERY extended request sent (serial, pipelined, malformed body) is also mapped to the outcome classes of the Lean model M-ExtDispatch (served:<operation reached> | unsupported | denied | bad | ends) and compared with driver op c19.ext <os|rs+ifaces> <readOnly> <name> <bodyOk>, identical questions asked once; non-trivial = everything but a supported name with valid arguments; quick rotates a third of the fixed unserved names and a quarter of the malformed requests per (configuration, variant) except every fourth configuration"
+	r.Rule = "client: handshake replies with versions {0..5, 2^31, 2^32-1} x extension lists, every truncation of a valid VERSION reply, every other type byte, PRNG bodies: construction succeeds iff type=2, version=3 and the extension list parses, and HasExtension answers (data of the last pair of that name, true) resp. (\"\", false) for every probed name (every advertised name, each with one byte flipped at the first/middle/last position, every prefix and suffix, one byte more, doubled, other case, the empty string, every pair's data, the well-known names), the client's answers (not the harness codec's) being compared with the map of driver op c19.recv; client report (c19_report.go): well-formed version-3 VERSION replies whose pairs range over 0 / 1 pair (31 names: empty, realistic, NUL, blank, '=', ',', non-UTF-8, 255..65536 bytes x 16 data: empty, digits, blank, NUL, non-UTF-8, a name, 300 and 70000 bytes, the name itself), 2 pairs (same name twice with data over {empty,1,2}^2; two names in both orders with an empty datum on either side; data naming the other pair / no pair), 3 pairs with a name twice or thrice in every position x {empty,1,2}^3, every order of a 4-list (5 thorough) with an empty datum, a repeated name and a datum naming a pair, 2..1000 pairs with the empty datum first / middle / last / everywhere / nowhere and with repeated names, the largest packet the client takes (256 KiB, long name / long data), 26 fsync@openssh.com lists and 400 (20000 thorough) PRNG lists over a small name pool (repeats) and random bytes; every list is given to a REAL client (peers.NewClient), every probe asked twice (answers must not change), File.Sync on the fsync lists and an eighth of the PRNG lists must put exactly one fsync@openssh.com request on the wire iff the last advertised fsync@openssh.com pair has data \"1\" and otherwise fail with OP_UNSUPPORTED sending nothing; failing lists are shrunk pair by pair; non-trivial = at least one pair; server: every ordered subset of the supported extensions (plus lists with repetitions; invalid names from four prior lists) through SetSFTPExtensions x BOTH servers under EVERY subset of their options (os: ReadOnly, WithAllocator, WithServerWorkingDirectory, WithMaxTxPacket, WithDebug = 32 variants; request server: WithRSAllocator, WithStartDirectory, WithRSMaxTxPacket = 8 option sets x 4 FileCmd handlers implementing a subset of {PosixRenameFileCmder, StatVFSFileCmder} and recording the method reached (quick: one handler per option set, rotating with the configuration)) x INIT variants (versions, client extension pairs): VERSION carries exactly the configured list; per session extended requests with every supported name (configured or not; absolute and relative paths; results checked on the tree; on a read-only server the mutating ones must be PERMISSION_DENIED and change nothing), ~110 unserved names (empty, other OpenSSH names, supported names in other case / without or with another domain / with NUL, blank, newline, one byte more or less, non-UTF-8, 255..65536 bytes (200000 thorough)) and PRNG names (random bytes, one-byte mutations of supported names) with rotating argument shapes (none, path, two paths, handle, random bytes, cut string): each must be answered STATUS OP_UNSUPPORTED with the request id, create nothing, and a following STAT must be answered; a pipelined batch per session (replies in order); requests that do not decode (id/name/argument cut or over-long, one session each) must end the session or be refused, never served; EVERY extended request sent (serial, pipelined, malformed body) is also mapped to the outcome classes of the Lean model M-ExtDispatch (served:<operation reached> | unsupported | denied | bad | ends) and compared with driver op c19.ext <os|rs+ifaces> <readOnly> <name> <bodyOk>, identical questions asked once; non-trivial = everything but a supported name with valid arguments; quick rotates a third of the fixed unserved names and a quarter of the malformed requests per (configuration, variant) except every fourth configuration"
 	// ---- client side ----
 	var lines, impl []string
 	versions := []uint32{0, 1, 2, 3, 4, 5, 1 << 31, 0xffffffff}
 	extLists := [][][2]string{nil, {{"statvfs@openssh.com", "2"}}, {{"a@b", "1"}, {"x", ""}, {"a@b", "9"}}, {{"", ""}}, {{"fsync@openssh.com", "1"}, {"hardlink@openssh.com", "1"}}}
 	try := func(desc string, frame []byte, nontriv bool) {
-		ok, exts, et, hung := c19TryClient(frame, true)
+		if c.Replay == "" && c.Stop("c19/client-handshake") {
+			return
+		}
 		// expectation computed independently with the wire codec
 		want := false
 		wantExts := map[string]string{}
+		var wantPairs []c19Pair
 		pk, tail := wire.Split(frame)
 		if len(pk) >= 1 && pk[0].Typ == wire.Version {
 			d := wire.D{B: pk[0].Body}
@@ -96,14 +113,18 @@ func checkC19(c *lib.Ctx) {
 						break
 					}
 					wantExts[n] = dt
+					wantPairs = append(wantPairs, c19Pair{n, dt})
 				}
 			}
 		}
+		// names asked through HasExtension: every advertised one, their neighbours, the well-known ones
+		probes := c19RepProbes(wantPairs)
+		ok, exts, et, hung := c19TryClient(frame, true, probes)
 		_ = tail
 		r.Case(desc+" "+lib.Hex(frame), nontriv)
 		r.Hist("client-" + strings.SplitN(desc, "/", 2)[0])
 		if hung {
-			r.Fail(lib.Failure{Kind: "oracle", Key: "client/hang", What: "NewClientPipe did not return within 20 s", Input: c19Case{Kind: desc, Hex: lib.Hex(frame)}})
+			r.Fail(lib.Failure{Kind: "oracle", Key: "client/hang", What: "NewClientPipe (or HasExtension after it) did not return within the hang deadline", Input: c19Case{Kind: desc, Hex: lib.Hex(frame)}})
 			return
 		}
 		if ok != want {
@@ -111,17 +132,17 @@ func checkC19(c *lib.Ctx) {
 			return
 		}
 		if ok {
-			for k, v := range wantExts {
-				switch k {
-				case "hardlink@openssh.com", "posix-rename@openssh.com", "statvfs@openssh.com", "fsync@openssh.com", "a@b", "x", "":
-					if exts[k] != v {
-						r.Fail(lib.Failure{Kind: "oracle", Key: "client/extensions-reported", What: "client reports extensions different from those advertised", Input: c19Case{Kind: desc, Hex: lib.Hex(frame)}, Expected: wantExts, Actual: exts})
+			for _, k := range probes {
+				v, adv := wantExts[k]
+				g, rep := exts[k]
+				if adv != rep || g != v {
+					key := "client/extensions-reported"
+					what := "client reports extensions different from those advertised"
+					if !adv {
+						what = "client reports an extension that was not advertised"
 					}
-				}
-			}
-			for k := range exts {
-				if _, ok := wantExts[k]; !ok {
-					r.Fail(lib.Failure{Kind: "oracle", Key: "client/extensions-reported", What: "client reports an extension that was not advertised", Input: c19Case{Kind: desc, Hex: lib.Hex(frame)}, Expected: wantExts, Actual: exts})
+					r.Fail(lib.Failure{Kind: "oracle", Key: key, What: fmt.Sprintf("%s (HasExtension(%q))", what, k), Input: c19Case{Kind: desc, Hex: lib.Hex(frame)}, Expected: wantExts, Actual: exts})
+					break
 				}
 			}
 		}
@@ -131,7 +152,7 @@ func checkC19(c *lib.Ctx) {
 				lines = append(lines, fmt.Sprintf("c19.recv %d %s", pk[0].Typ, lib.Hex(pk[0].Body)))
 				if ok {
 					var names []string
-					for k, v := range wantExts {
+					for k, v := range exts { // what the CLIENT reports (every advertised name is among the probes)
 						names = append(names, lib.Hex([]byte(k))+"="+lib.Hex([]byte(v)))
 					}
 					sort.Strings(names)
@@ -154,6 +175,11 @@ func checkC19(c *lib.Ctx) {
 			}
 			defer os.RemoveAll(root)
 			c19ReplayExt(c, ext, root)
+			return
+		}
+		var rep c19RepCase
+		if err := lib.ReadReplay(c.Replay, &rep); err == nil && rep.Sect == "report" {
+			c19ClientReport(c, &rep)
 			return
 		}
 		if err := lib.ReadReplay(c.Replay, &one); err != nil {
@@ -215,7 +241,7 @@ func checkC19(c *lib.Ctx) {
 		f[0], f[1], f[2], f[3] = byte(n>>24), byte(n>>16), byte(n>>8), byte(n)
 		try("length-field", f, true)
 	}
-	if _, err := os.Stat(filepath.Join(os.Getenv("VERIF_DIR"), "lean/Sftp/Driver/C19.lean")); err == nil && c.ModelPath != "" {
+	if c.ModelPath != "" {
 		if out, err := c.Model([]string{"c19.recv 2 00000003"}); err == nil && out[0] != "bad-op" {
 			// canonicalise the model's extension list (sorted) before comparing
 			mout, err := c.Model(lines)
@@ -253,6 +279,9 @@ func checkC19(c *lib.Ctx) {
 		}
 	}
 
+	// ---- client side: what HasExtension reports (c19_report.go) ----
+	c19ClientReport(c, nil)
+
 	// ---- server side (c19_srv.go) ----
 	root, err := os.MkdirTemp("", "vh-c19-")
 	if err != nil {
@@ -262,4 +291,5 @@ func checkC19(c *lib.Ctx) {
 	defer os.RemoveAll(root)
 	c19Server(c, root)
 	r.Sample(map[string]any{"handshake_reply": lib.Hex(valid), "accepted": true})
+	r.Sample(map[string]any{"sect": "report", "pairs": [][2]string{{"copy-file", ""}, {"a@b", "1"}, {"a@b", ""}}, "HasExtension": map[string]string{"copy-file": `("", true)`, "a@b": `("", true)`, "a@c": `("", false)`, "": `("", false)`}})
 }
